@@ -1874,3 +1874,36 @@ pub fn gen_c12_recovery(r: &mut Rng) -> (String, Sim) {
     );
     (class, sim)
 }
+
+// ---------------------------------------------------------------------------
+// C03: every scenario generator, with frames and timestamps mutated towards extremes
+
+thread_local! {
+    static MUTATE: std::cell::Cell<Option<u64>> = std::cell::Cell::new(None);
+}
+
+/// Called by `Sim::new` callers: the scenario generators construct their own Sim,
+/// so the mutation stream is switched on through a thread-local for the next Sim.
+pub fn arm_mutator(seed: Option<u64>) {
+    MUTATE.with(|m| m.set(seed));
+}
+pub fn take_mutator() -> Option<Rng> {
+    MUTATE.with(|m| m.get()).map(|s| Rng::new(s, 77))
+}
+
+pub fn gen_c03(r: &mut Rng) -> (String, Sim) {
+    arm_mutator(Some(r.next()));
+    let which = r.below(9);
+    let (class, sim) = match which {
+        0 | 1 => gen_mix(r),
+        2 => gen_c09(r),
+        3 => gen_c10(r, false),
+        4 => gen_c11(r),
+        5 => gen_c14(r),
+        6 => gen_c15(r),
+        7 => gen_c06(r),
+        _ => gen_c08(r),
+    };
+    arm_mutator(None);
+    (format!("c03:{}", class), sim)
+}
